@@ -315,6 +315,9 @@ def build_scene(spec):
     tet = trimesh.Trimesh(*gmesh.build({"parts": [{"kind": "tetra"}]}), process=False)
     tet.vertices += rs.uniform(-1e-2, 1e-2, tet.vertices.shape)
     mats = [np.array(m, dtype=np.float64) for m in spec["edges"]]
+    if spec.get("empty_first"):
+        # an empty geometry referenced by a node, stored before the others
+        s.add_geometry(trimesh.Trimesh(), node_name="ne", geom_name="aaa_empty", transform=mats[1])
     s.add_geometry(box, node_name="n0", geom_name="box", transform=mats[0])
     s.add_geometry(tet, node_name="n1", geom_name="tet", parent_node_name="n0", transform=mats[1])
     s.graph.update(frame_to="n2", frame_from=s.graph.base_frame, matrix=mats[2], geometry="box")
@@ -327,7 +330,7 @@ def placed(s):
     for node in s.graph.nodes_geometry:
         T, name = s.graph[node]
         g = s.geometry[name]
-        if isinstance(g, trimesh.Trimesh):
+        if isinstance(g, trimesh.Trimesh) and len(g.faces):
             t = np.asarray(g.triangles).reshape((-1, 3))
             out.append(((T[:3, :3] @ t.T).T + T[:3, 3]).reshape((-1, 3, 3)))
     return out
@@ -430,7 +433,7 @@ def points_case(draw):
 def scene_case(draw):
     edges = [draw(gm.matrix(classes=["rigid", "translation", "rotation", "similarity"], tscale=5.0))["M"] for _ in range(4)]
     fmt = draw(st.sampled_from(SCENE_FORMATS))
-    return {"scene": {"seed": draw(st.integers(0, 10**6)), "edges": edges}, "fmt": fmt, "kw": draw(st.sampled_from(MESH_FORMATS[fmt])), "entry": draw(st.sampled_from(["load", "load_scene"]))}
+    return {"scene": {"seed": draw(st.integers(0, 10**6)), "edges": edges, "empty_first": draw(st.booleans())}, "fmt": fmt, "kw": draw(st.sampled_from(MESH_FORMATS[fmt])), "entry": draw(st.sampled_from(["load", "load_scene"]))}
 
 
 @subcheck("C08", "mesh", shards={"quick": 10, "thorough": 16})
